@@ -3,15 +3,17 @@ CONSTANTS
   MaxBlocks = 3
   MaxReqs = 3
   Templates = {"o23", "jmp", "ret", "call"}
-  PatchKinds = {"plain2", "jmpsym", "callsym", "ref"}
+  PatchKinds = {"plain2", "jmpsym", "callsym", "ref", "loop"}
   FnLayouts = {"none", "one"}
-  EndSyms = {FALSE}
+  EndSyms = {TRUE, FALSE}
   NoSyms = {FALSE}
   AnnModes = {"none"}
   WithProxyDel = TRUE
   CfiLayouts = {"none"}
   Isa = "x64"
   WithScopes = FALSE
+  Leads = {0, 2}
+  DropFnTables = {FALSE}
   ExtraData = {FALSE}
   Retargets = {TRUE, FALSE}
   AlignOpts = {0}
